@@ -79,13 +79,66 @@ def indep_facts(v4):
     sstruct = must(re.search(r'type sorterClass_\[V any\] struct \{(.*?)\n\}', sorter, re.S), 'sorterClass_ struct').group(1)
     sstruct = re.sub(r'//[^\n]*', '', sstruct)
     shares_coll = bool(re.search(r'\bRankingFunction\[|\bCollatorLike\[|\*collator_\[', sstruct))
+    # does a public call of a collator change the collator (depth counter kept in the instance)?
+    coll = read(os.path.join(v4, 'agent/collator.go'))
+    pub = re.findall(r'func \(v \*collator_\[V\]\) (CompareValues|RankValues)\([^)]*\)[^{]*\{(.*?)\n\}', coll, re.S)
+    shares_depth = len(pub) != 2 or any(re.search(r'\bv\.(depth_|compareValues\(|rankValues\()', re.sub(r'//[^\n]*', '', body)) for _, body in pub)
     b = lambda x: 'true' if x else 'false'
     return [
         "Definition registry_locked : list (string * bool) := [%s]." % '; '.join('(%s, %s)' % (coq_string(n), b(v)) for n, v in locked),
         "Definition notation_shares_formatter : bool := %s." % b(shares_fmt),
         "Definition notation_shares_parser : bool := %s." % b(shares_par),
         "Definition sorter_shares_collator : bool := %s." % b(shares_coll),
+        "Definition collator_shares_depth : bool := %s." % b(shares_depth),
     ]
+
+def package_vars(v4):
+    """Every package-level `var` of the library (non-test files) with a classification, for C19:
+    the expected list is spelled out in coq/Indep.v and compared by computation, so that a NEW
+    package-level variable (potential hidden shared mutable state) breaks a proof obligation.
+    registry: map[string]any{} filled by a generic accessor; mutex; class-constants: pointer to a
+    class struct none of whose methods assigns a field (class-MUTATED otherwise); map-constant: a
+    map literal never assigned to in its package (map-MUTATED otherwise); test-hook: only in a
+    file with the verif build tag; other: anything else."""
+    import glob
+    res = []
+    for f in sorted(glob.glob(os.path.join(v4, '*.go')) + glob.glob(os.path.join(v4, '*', '*.go'))):
+        if f.endswith('_test.go'):
+            continue
+        src = read(f)
+        pkg_src = ''.join(read(g) for g in glob.glob(os.path.join(os.path.dirname(f), '*.go')) if not g.endswith('_test.go'))
+        decls = []
+        for m in re.finditer(r'^var (\w+)\b([^\n]*)', src, re.M):
+            decls.append((m.group(1), m.group(2)))
+        for m in re.finditer(r'^var \(\n(.*?)\n\)', src, re.M | re.S):
+            for line in m.group(1).split('\n'):
+                mm = re.match(r'\s*(\w+)\b(.*)', line)
+                if mm and not line.strip().startswith('//'):
+                    decls.append((mm.group(1), mm.group(2)))
+        tagged = bool(re.search(r'^//go:build\s+verif\b', src, re.M))
+        for name, rest in decls:
+            rest = rest.strip()
+            if tagged:
+                kind = 'test-hook'
+            elif re.match(r'=\s*map\[string\]any\{\}', rest):
+                kind = 'registry'
+            elif re.match(r'syn\.(RW)?Mutex\b', rest):
+                kind = 'mutex'
+            elif re.match(r'=\s*&(\w+Class_)\{', rest):
+                cls = re.match(r'=\s*&(\w+Class_)\{', rest).group(1)
+                mutated = False
+                for mm in re.finditer(r'^func \((\w+) \*' + cls + r'\) \w+\([^{]*\{(.*?)^\}', pkg_src, re.M | re.S):
+                    if re.search(r'\b' + mm.group(1) + r'\.\w+\s*(=[^=]|\+\+|--|\+=|-=)', mm.group(2)):
+                        mutated = True
+                if re.search(r'\b' + name + r'\.\w+\s*(=[^=]|\+\+|--|\+=|-=)', pkg_src):
+                    mutated = True
+                kind = 'class-MUTATED' if mutated else 'class-constants'
+            elif re.match(r'=\s*map\[\w+\]\w+\{', rest):
+                kind = 'map-MUTATED' if re.search(r'\b' + name + r'\[[^\]]*\]\s*(=[^=]|\+\+|--)', pkg_src) or re.search(r'delete\(' + name + r'\b', pkg_src) else 'map-constant'
+            else:
+                kind = 'other'
+            res.append((os.path.relpath(f, v4) + ':' + name, kind))
+    return ["Definition package_vars : list (string * string) := [\n  %s]." % ';\n  '.join('(%s, %s)' % (coq_string(n), coq_string(k)) for n, k in res)]
 
 def main():
     root, outp = sys.argv[1], sys.argv[2]
@@ -167,6 +220,7 @@ def main():
         items.append("(%s, %s)" % (coq_string(w), coq_string(consts[w])))
     lines.append("Definition token_regexps : list (string * string) := [\n  %s]." % ';\n  '.join(items))
     lines += indep_facts(v4)
+    lines += package_vars(v4)
     text = '\n'.join(lines) + '\n'
     old = None
     if os.path.exists(outp):
